@@ -325,6 +325,18 @@ def unguardVal (v : Val) : M Unit :=
   | .obj a => dropGuard a
   | _ => pure ()
 
+/-- `guard_rows` in stdlib.rs (repaired): the keys and values of the rows a native copied are
+    protected while the key function runs (it may remove them from the table) -/
+def guardRows (es : List (Val × Val)) : M Unit :=
+  for (k, v) in es do
+    guardVal k
+    guardVal v
+
+def unguardRows (es : List (Val × Val)) : M Unit :=
+  for (k, v) in es do
+    unguardVal k
+    unguardVal v
+
 /-- the registered host functions: the stdlib natives and the harness' fixed test family.
     Arguments stay on the value stack while the function runs (repaired wrappers) and are
     popped afterwards. -/
@@ -340,6 +352,7 @@ def callNativeBody (reenter : Reenter) (name : String) : M Val := do
       match es with
       | [] => return .nil
       | (k0, v0) :: rest => do
+        guardRows es
         push v0; push k0
         let mut best ← reenter keyFn
         -- (repaired) the best key so far is only referenced from the native: it is guarded
@@ -369,6 +382,7 @@ def callNativeBody (reenter : Reenter) (name : String) : M Val := do
         dropGuard row
         -- the guard of the best key lives until the native returns (`_max_key_guard` is a local)
         unguardVal best
+        unguardRows es
         return .obj row
   | "__sort" => do
     let keyFn ← peek 0
@@ -377,6 +391,7 @@ def callNativeBody (reenter : Reenter) (name : String) : M Val := do
     | none => return iterable
     | some es => do
       let mut keyed : List (Val × Val × Val) := []
+      guardRows es
       for (k, v) in es do
         push v; push k
         let key ← reenter keyFn
@@ -395,6 +410,7 @@ def callNativeBody (reenter : Reenter) (name : String) : M Val := do
         match key with
         | .obj a => dropGuard a
         | _ => pure ()
+      unguardRows es
       dropGuard out
       return .obj out
   | "__to_array" => do
